@@ -165,6 +165,12 @@ def judge(rep, item, mobs):
                      f"apply_to_file(fd, destructive=False) {nd}: the file is left neither at 0, "
                      "nor at EOF, nor after a line feed", impl=nd)
             return
+        if nd.get('ret') != ia.get('ret'):
+            # Lean: C04_nd_returns_same - both forms compute the same offset
+            rep.fail('correspondence-broken', case,
+                     f"apply_to_file returns {ia.get('ret')} but {nd.get('ret')} with "
+                     "destructive=False", impl=nd, model=ia)
+            return
     if ma.get('pos') != p:
         rep.fail('correspondence-broken', case, f"apply_to_file: impl={ia} model={ma}",
                  impl=ia, model=ma)
